@@ -9,6 +9,7 @@ for i in $(seq 1 $n); do
   echo "$out" | tail -1
   echo "$out" | grep "^VIOLATION" | sed 's/.*obligation=\([^ ]*\) status.*/\1/' | while read o; do
     echo "  dropping unstable claim: $o"
+    echo "$o" >> baseline/unstable.txt
     grep -vF "$o	" baseline/$p.txt > baseline/$p.tmp; mv baseline/$p.tmp baseline/$p.txt
   done
 done
